@@ -12,6 +12,7 @@ replayed exactly from the list of choices it made.
 """
 import sys
 import threading
+import time
 
 TOOL_ID = 3
 _mon = sys.monitoring
@@ -54,7 +55,8 @@ class Sched:
         self.current = None
         self.trace = []             # (thread idx, n_runnable) per step
         self.quiet = False          # when True switch points are ignored (run-to-completion segments)
-        self.step_timeout = 30.0    # seconds a thread may run without reaching a switch point or finishing
+        self.draining = False
+        self.step_timeout = 10.0    # seconds a thread may run without reaching a switch point or finishing
         self._stuck_thread = None
         self.pos_fn = None          # optional: () -> position signature, called in the yielding thread
         self.on_step = None         # optional: callback(sched, thread) after every step (invariants)
@@ -165,12 +167,13 @@ class Sched:
                 # Let every thread run on freely (no more switch points) so that all real primitives are
                 # released in the ordinary way; the results of this run are discarded by the caller.
                 self.quiet = True
+                self.draining = True
                 pending = [t for t in self.threads if not t.done]
                 for t in pending:
                     if t is not self._stuck_thread:
                         t.go.release()
                 for t in pending:
-                    if not self.control.acquire(timeout=300):
+                    if not self.control.acquire(timeout=60):
                         break
             elif not all(t.done for t in self.threads):
                 self.abort = True
@@ -214,12 +217,24 @@ class FakeLock:
             self.owner = "main"
             return True
         s.yield_here(("acquire", id(self)))
+        spins = 0
         while self.owner is not None:
             if not blocking:
                 return False
             t.blocked_on = self
             self.parked += 1
+            if s.quiet and not s.draining:
+                # a run-to-completion segment cannot complete before the holder has released the lock:
+                # hand the baton back so that the scheduler runs the holder first
+                s.quiet = False
             s.yield_here(("parked", id(self)))
+            if s.draining:
+                # drain after a stuck schedule: all threads run freely, nobody hands the baton around any
+                # more, so wait in real time, and give up rather than spin for ever
+                spins += 1
+                time.sleep(0.0005)
+                if spins > 20000:
+                    raise Abort("stand-in lock never released during the drain of a stuck schedule")
         t.blocked_on = None
         self.owner = t.idx
         self.acquisitions += 1
@@ -273,6 +288,50 @@ class FakeRLock(FakeLock):
             FakeLock.release(self)
 
     __enter__ = acquire
+
+
+_REAL_LOCK_TYPES = (type(threading.Lock()), type(threading.RLock()))
+
+
+def adopt_locks(root, module_prefix="ecdsa", _map=None, _seen=None, _depth=0):
+    """replace every real mutex reachable from `root` (a module, a class or an instance: its attributes,
+    class attributes, and nested objects whose class lives in `module_prefix`) by a scheduler-aware one.
+    One real lock shared by several holders becomes one shared stand-in.  Locks created at import time
+    (module globals, class-body defaults) are otherwise invisible to the scheduler: a thread parked at a
+    switch point while holding one would block the others inside C code."""
+    import types
+    _map = {} if _map is None else _map
+    _seen = set() if _seen is None else _seen
+    if id(root) in _seen or _depth > 6:
+        return _map
+    _seen.add(id(root))
+
+    def fake_for(lock):
+        if id(lock) not in _map:
+            _map[id(lock)] = (FakeRLock() if isinstance(lock, _REAL_LOCK_TYPES[1]) else FakeLock(), lock)
+        return _map[id(lock)][0]
+
+    try:
+        items = list(vars(root).items())
+    except TypeError:
+        return _map
+    for k, v in items:
+        if isinstance(v, _REAL_LOCK_TYPES):
+            try:
+                setattr(root, k, fake_for(v))
+            except Exception:
+                pass
+        elif isinstance(v, types.ModuleType):
+            if v is threading and isinstance(root, types.ModuleType):
+                setattr(root, k, FakeThreadingModule)
+        elif isinstance(v, type):
+            if (getattr(v, "__module__", "") or "").startswith(module_prefix):
+                adopt_locks(v, module_prefix, _map, _seen, _depth + 1)
+        elif hasattr(v, "__dict__") and (type(v).__module__ or "").startswith(module_prefix):
+            adopt_locks(v, module_prefix, _map, _seen, _depth + 1)
+    if not isinstance(root, (type, types.ModuleType)):
+        adopt_locks(type(root), module_prefix, _map, _seen, _depth + 1)
+    return _map
 
 
 class _FakeThreadingMeta(type):
